@@ -41,6 +41,9 @@ CLAIMED = {
     'C13': ('DESIGN.md 4 C13', E1,
             'Known answers attached by generate_service_query and ServiceInfo._generate_request_query are exactly the matching records with more than half their TTL left (ages / TTLs symbolic), stamped with the query instant; _write_ttl writes floor(remaining seconds) for all created / ttl / now; duplicate-question suppression between two askers (own query or question heard as responder) decided for every gap 0..2500 ms and known-answer relation.',
             'Trusted: as C05; caches of <= 4 records. QU-then-QM of browsers is decided in C10, the lookup schedule in C18, TC splitting in C14.'),
+    'C16': ('DESIGN.md 4 C16', E1,
+            'Metamorphic equivalence on each symbolic path: a history run with every datagram repeated dgap ms later (0..999) and the same history without repeats (identical random draws) produce identical multicast transmissions, browser callbacks and record-listener calls, and identical unicast replies except for a repeated QU reply; offsets, dgap, TTLs, sighting ages symbolic.',
+            'Trusted: as C05; datagrams are opaque byte tokens mapped to prebuilt messages (the listener guard and dispatch are the real code); no loop-back of the host own multicast.'),
     'C18': ('DESIGN.md 4 C18', E1,
             'Return instant, result, fields, no transmission when the cache suffices, QU-then-QM, omitted questions and query spacing of the real async_request coroutine for every timeout, every age / TTL of pre-cached records and every arrival offset / TTL of later records, over enumerated cache contents and arrival orders.',
             'Trusted: as C05. Timeout range 200..1000 ms when records are cached or arrive (200..10000 ms otherwise) to keep path trees exhaustible.'),
